@@ -1,6 +1,7 @@
 package vrun
 
 import (
+	"bytes"
 	"fmt"
 	"testing"
 	"unsafe"
@@ -50,6 +51,29 @@ func fieldSlices(m message.Message) map[string][]byte {
 }
 
 // checkTotal is the C04 oracle for one input and one decoder.
+// trailerCheck: the packet is decoded from a buffer in which other bytes follow it (as in a stream or a
+// ring) and the message is then changed through its setters: whatever the setters do, the bytes after
+// the packet belong to the caller. A decoded field whose capacity reaches beyond the packet lets an
+// appending setter write there.
+func trailerCheck(t byte, pkt []byte, detail map[string]interface{}) {
+	canary := []byte{0xee, 0xdd, 0xcc, 0xbb, 0xaa, 0x99, 0x88, 0x77}
+	buf := make([]byte, len(pkt)+len(canary))
+	copy(buf, pkt)
+	copy(buf[len(pkt):], canary)
+	m, n, err, pan, _, _ := libDecode(t, buf)
+	if pan != nil || err != nil || n != len(pkt) {
+		return // trailing bytes after an accepted packet are the codec check's business
+	}
+	what, pan := applySetters(m, pkt)
+	if what == "" || pan != nil {
+		return
+	}
+	out.Count("c04.trailer_checks", 1)
+	if !bytes.Equal(buf[len(pkt):], canary) {
+		out.Violation("c04:write-beyond-packet:"+rc.TypeName(t), fmt.Sprintf("decoded from a buffer in which 8 other bytes follow the packet, then changed through %s: the bytes after the packet now read %s (were %s)", what, hex(buf[len(pkt):]), hex(canary)), detail)
+	}
+}
+
 func checkTotal(t byte, b []byte, kind string) {
 	tn := rc.TypeName(t)
 	in := make([]byte, len(b)) // cap == len
@@ -78,6 +102,9 @@ func checkTotal(t byte, b []byte, kind string) {
 				out.Violation("c04:field-outside:"+tn, fmt.Sprintf("field %s (%d bytes) reaches outside the %d bytes of the decoded packet", name, len(f), n), detail)
 				return
 			}
+		}
+		if n == len(in) {
+			trailerCheck(t, in, detail)
 		}
 	} else {
 		out.Count("c04.rejected", 1)
